@@ -147,14 +147,25 @@ Check C20_update_key_wf_refuted :
               update_key g "k" None [] = Ok g' /\ wf_b (gr_arena g') (gr_keys g') = false).
 Print Assumptions C20_update_key_wf_refuted.
 
-Theorem C20_import_double_md_refuted :
+Theorem C20_import_dup_refuted :
   exists (notes : list (string * option string * list dblock)) (g : graph),
-           NoDup (map (fun n : string * option string * list dblock => fst (fst n)) notes) /\
+           map (fun n : string * option string * list dblock => fst (fst n)) notes = ["x"; "x"] /\
            import notes = Ok g /\ wf_b (gr_arena g) (gr_keys g) = false.
 Proof. exact HistoryWF.import_wf_refuted. Qed.
-Check C20_import_double_md_refuted :
+Check C20_import_dup_refuted :
   exists (notes : list (string * option string * list dblock)) (g : graph),
-           NoDup (map (fun n : string * option string * list dblock => fst (fst n)) notes) /\
+           map (fun n : string * option string * list dblock => fst (fst n)) notes = ["x"; "x"] /\
            import notes = Ok g /\ wf_b (gr_arena g) (gr_keys g) = false.
-Print Assumptions C20_import_double_md_refuted.
+Print Assumptions C20_import_dup_refuted.
+
+Theorem C20_import_double_md_wf :
+  exists g : graph,
+    import [("x", None, [DPara (0, 1) [Str "p"]]); ("x.md", None, [])] = Ok g /\
+    map fst (gr_keys g) = ["x"; "x.md"] /\ wf_b (gr_arena g) (gr_keys g) = true.
+Proof. exact HistoryWF.import_double_md_wf. Qed.
+Check C20_import_double_md_wf :
+  exists g : graph,
+    import [("x", None, [DPara (0, 1) [Str "p"]]); ("x.md", None, [])] = Ok g /\
+    map fst (gr_keys g) = ["x"; "x.md"] /\ wf_b (gr_arena g) (gr_keys g) = true.
+Print Assumptions C20_import_double_md_wf.
 
